@@ -292,6 +292,75 @@ func TestC10(t *testing.T) {
 		}
 		run.Eval("reconfigured|" + order)
 	}
+	// values held in interface-typed struct fields and []interface{} fields (outside C09's shape grammar - what
+	// the filter does to the strings in them is not judged): the forwarded payload has the same dynamic types,
+	// non-string values are preserved and the input is untouched
+	nif := run.N(200, 4000)
+	for i := 0; i < nif && !run.Stop(); i++ {
+		cr := r.Fork()
+		type inner struct {
+			S string `class:"secret"`
+			P string `class:"public"`
+			N int
+		}
+		type outer struct {
+			I  interface{}
+			T  interface{}
+			N  interface{}
+			PI interface{}
+			L  []interface{}
+		}
+		ts := time.Unix(int64(cr.Intn(2_000_000_000)), 0).UTC()
+		mk := func() *outer {
+			return &outer{I: inner{S: "s", P: "p", N: 7}, T: ts, N: 42, PI: &inner{S: "s", P: "p", N: 8}, L: []interface{}{inner{S: "s", P: "p", N: 9}, 3.5, ts}}
+		}
+		in, twin := mk(), mk()
+		cfg := genCfgEnc(cr)
+		res := callProcess(buildFilter(cfg), &eventlogger.Event{Type: "t", CreatedAt: created, Payload: in})
+		if !reflect.DeepEqual(in, twin) {
+			run.Violation("shape:input-modified:iface-fields", "Process modified a payload with interface-typed fields", map[string]any{"config": cfg.String(), "after": fmt.Sprintf("%+v", *in)})
+		}
+		if res.Panic != "" || res.Err != nil || res.Out == nil {
+			run.Eval("iface-fields|refused")
+			continue
+		}
+		got, ok := res.Out.Payload.(*outer)
+		if !ok {
+			run.Violation("shape:type-changed", fmt.Sprintf("output payload type %T", res.Out.Payload), map[string]any{"config": cfg.String()})
+			continue
+		}
+		types := func(o *outer) string {
+			s := fmt.Sprintf("I=%T T=%T N=%T PI=%T L=[", o.I, o.T, o.N, o.PI)
+			for _, e := range o.L {
+				s += fmt.Sprintf("%T ", e)
+			}
+			return s + "]"
+		}
+		if types(got) != types(twin) {
+			run.Violation("shape:type-changed:iface-fields", fmt.Sprintf("values held in interface-typed fields changed their dynamic type: input %s, forwarded %s", types(twin), types(got)), map[string]any{"config": cfg.String()})
+			continue
+		}
+		nonString := func(o *outer) string {
+			s := fmt.Sprintf("T=%v N=%v", o.T, o.N)
+			if x, ok := o.I.(inner); ok {
+				s += fmt.Sprintf(" I.N=%d I.P=%s", x.N, x.P)
+			}
+			if x, ok := o.PI.(*inner); ok && x != nil {
+				s += fmt.Sprintf(" PI.N=%d PI.P=%s", x.N, x.P)
+			}
+			if len(o.L) == 3 {
+				if x, ok := o.L[0].(inner); ok {
+					s += fmt.Sprintf(" L0.N=%d L0.P=%s", x.N, x.P)
+				}
+				s += fmt.Sprintf(" L1=%v L2=%v", o.L[1], o.L[2])
+			}
+			return s + fmt.Sprintf(" len(L)=%d", len(o.L))
+		}
+		if !cfg.allNone() && cfg.Overrides["public"] == "" && nonString(got) != nonString(twin) {
+			run.Violation("shape:non-string-not-preserved:iface-fields", fmt.Sprintf("non-string or public values held in interface-typed fields were not preserved: input %s, forwarded %s", nonString(twin), nonString(got)), map[string]any{"config": cfg.String()})
+		}
+		run.Eval("iface-fields|" + cfg.String())
+	}
 	// root structs passed by value: input untouched, no shared memory with what is forwarded
 	nbv := run.N(3000, 60000)
 	for i := 0; i < nbv && !run.Stop(); i++ {
